@@ -378,6 +378,9 @@ pub fn expect_tag(exp: &mut Expected, p: &str, region: &[u8], it: &Item, kind: u
                 ElfShape::Fits => {
                     exp.is(k("s.new"), Val::Ok);
                     exp.any(k("s.len0"));
+                    // names are resolved only where every header refers to the
+                    // harness-owned names buffer (see `elfnames`)
+                    let names = crate::elfnames::names_mode(&b[off..off + size]).0;
                     let mut j = 0;
                     for e in 0..n as usize {
                         let at = off + 20 + e * es as usize;
@@ -396,6 +399,9 @@ pub fn expect_tag(exp: &mut Expected, p: &str, region: &[u8], it: &Item, kind: u
                         exp.u(format!("{q}.addralign"), ent.addralign);
                         exp.either(format!("{q}.~end"), sum_or_panic(ent.addr, ent.size));
                         exp.any(format!("{q}.len_after"));
+                        if names {
+                            exp.is(format!("{q}.name"), crate::elfnames::model_name(le32(b, at)));
+                        }
                         j += 1;
                     }
                     exp.is(k("s.end"), Val::None);
